@@ -227,6 +227,70 @@ def point_ops(check, repo):
 
 def run(check, ctx):
     repo = ctx.repo
+    argument_mutation(check, repo)
     shared_buffers(check, repo)
     copy_rules(check, repo)
     point_ops(check, repo)
+
+
+def argument_mutation(check, repo):
+    """P4 for constructors and one-shot functions: a mutable byte string handed in by the caller (bytearray key, nonce,
+    data, salt) has the same content afterwards.  Interpreted with concrete bytearrays; in-place operators (+=, slice
+    assignment, extend) act on the caller's object."""
+    H = "Crypto.Hash."
+    entries = [
+        (H + "HMAC", "HMAC.__init__", "HMAC", {"key": bytearray(b"k" * 20), "msg": bytearray(b"m" * 5), "digestmod": "HASH"}, ("key", "msg")),
+        (H + "HMAC", "HMAC.__init__", "HMAC", {"key": bytearray(b"k" * 64), "msg": b"", "digestmod": "HASH"}, ("key",)),
+        (H + "HMAC", "HMAC.__init__", "HMAC", {"key": bytearray(b"k" * 100), "msg": b"", "digestmod": "HASH"}, ("key",)),
+        (H + "HMAC", "HMAC.update", "HMAC", {"msg": bytearray(b"m" * 7)}, ("msg",)),
+        (H + "CMAC", "CMAC.update", "CMAC", {"msg": bytearray(b"m" * 21)}, ("msg",)),
+        ("Crypto.Protocol.KDF", "PBKDF2", None, {"password": bytearray(b"pw" * 5), "salt": bytearray(b"s" * 8), "dkLen": 20, "count": 2}, ("password", "salt")),
+        ("Crypto.Protocol.KDF", "HKDF", None, {"master": bytearray(b"m" * 10), "key_len": 16, "salt": bytearray(b"s" * 4), "hashmod": "HASHMOD", "num_keys": 1, "context": bytearray(b"c" * 3)}, ("master", "salt", "context")),
+        ("Crypto.Util.Padding", "pad", None, {"data_to_pad": bytearray(b"d" * 5), "block_size": 8, "style": "pkcs7"}, ("data_to_pad",)),
+        ("Crypto.Util.Padding", "unpad", None, {"padded_data": bytearray(b"ddddd\x03\x03\x03"), "block_size": 8, "style": "pkcs7"}, ("padded_data",)),
+        ("Crypto.Util.strxor", "strxor", None, {"term1": bytearray(b"a" * 4), "term2": bytearray(b"b" * 4)}, ("term1", "term2")),
+    ]
+    n = 0
+    for (mname, qual, cls, args, watched) in entries:
+        mod = repo.module(mname)
+        fn = repo.func(mod, qual)
+
+        def m_hashnew(i, base, a, kw, st, node):
+            return i.new_obj(st, label="hobj", attrs={"digest_size": 32, "block_size": 64})
+        it = Interp(repo, max_depth=3, method_models={
+            "new": m_hashnew, "digest": lambda i, base, a, kw, st, node: bytes(32),
+            "update": lambda i, base, a, kw, st, node: base, "copy": lambda i, base, a, kw, st, node: base,
+            "encrypt": lambda i, base, a, kw, st, node: bytes(16)})
+        st = State()
+        seeds = {}
+        originals = {}
+        for k, v in args.items():
+            if v == "HASH":
+                v = it.new_obj(st, label="hashmod", attrs={"digest_size": 32, "block_size": 64})
+            elif v == "HASHMOD":
+                v = it.new_obj(st, label="hashmod", attrs={"digest_size": 32, "block_size": 64})
+            seeds[k] = v
+            if isinstance(v, bytearray):
+                originals[k] = (v, bytes(v))
+        me = None
+        if cls:
+            me = it.new_obj(st, mod, repo.cls(mod, cls), havoc=True)
+            st.heap[me.ident].update({"_cache": bytearray(16), "_cache_n": 0, "_data_size": 0, "_mac_tag": None, "_update_after_digest": False,
+                                      "_block_size": 16, "_bs": 16, "digest_size": 16})
+        res = it.run(mod, fn, seeds, self_obj=me, state=st)
+        n += 1
+        changed = []
+        for k in watched:
+            obj, before = originals[k]
+            # the object the caller holds is `obj` itself (clones of the state copy values, so look at every exit state too)
+            after = set([bytes(obj)])
+            for o in res.outcomes:
+                if o.state is not None and o.depth == 0:
+                    v = o.state.frames[0].get("#arg:" + k)
+            if bytes(obj) != before:
+                changed.append("%s grew/changed from %d to %d bytes" % (k, len(before), len(obj)))
+        check.ob("P4", "P4|argument|%s|%s" % (qual, "+".join("%s%d" % (k, len(originals[k][1])) for k in watched)), not changed, mod.path, fn.lineno,
+                 extracted="; ".join(changed) if changed else "%s leaves its bytearray argument(s) %s unchanged" % (qual, ", ".join(watched)),
+                 expected="caller-owned mutable inputs are read, never modified (an in-place += on an alias of the argument changes the caller's key)")
+    if n < 8:
+        raise AnalysisError("P4: only %d argument-mutation entries" % n)
